@@ -41,8 +41,16 @@ deriving Repr, DecidableEq
 
 def U64 : Nat := 2 ^ 64
 
+/-- `encompasses_file_range` / `is_encompassed_by_file_range` (svma_file_range.rs:36-37, 46-47) add
+`other_file_offset + other_file_size` and `self.file_offset + self.size` in `u64` without check: the first
+contribution looked at panics when the mapping's file range wraps (a page offset close to 2^64); a
+contribution's own range wraps only for a program header claiming a file range beyond 2^64 -/
+def rangesWrap (cs : List Contribution) (off size : Nat) : Bool :=
+  !cs.isEmpty && (decide (off + size ≥ U64) || cs.any (fun c => decide (c.fileOff + c.size ≥ U64)))
+
 /-- `compute_vma_bias_impl`: bias (mod 2^64) between stated and actual addresses -/
 def computeBias (cs : List Contribution) (off avma size : Nat) : Out :=
+  if rangesWrap cs off size then .panic else
   match refContribution cs off size with
   | none => .notFound
   | some c =>
